@@ -66,3 +66,30 @@ pub fn std_to_any<T>(r: StdResult<T>) -> (o: AnyResult<T>)
 {
     match r { Ok(v) => Ok(v), Err(_) => Err(AnyError) }
 }
+
+// ---- Map::range over ALL entries (cw-storage-plus src/map.rs `range(store, None, None, order)`): the records of the
+// map's namespace window in raw-key order, each decoded; a record that does not decode yields Err in its place.
+#[verifier::external_body]
+#[verifier::reject_recursive_types(V)]
+pub struct EntryIter<V> { p: core::marker::PhantomData<V> }
+impl<V> EntryIter<V> { pub uninterp spec fn rem(&self) -> Seq<StdResult<(Addr, V)>>; }
+pub open spec fn entries_of<V: CwVal>(w: St, recs: Seq<RecV>, items: Seq<StdResult<(Addr, V)>>, order: Order) -> bool {
+    &&& is_range_of(recs, w, None, None, order)
+    &&& items.len() == recs.len()
+    &&& forall|i: int| 0 <= i < recs.len() ==> match V::de((#[trigger] recs[i]).1) { Ok(v) => items[i] matches Ok(p) && p.1 == v && p.0.bytes() == recs[i].0, Err(_) => items[i] is Err }
+}
+impl<'a, V: CwVal> Map<&'a Addr, V> {
+    #[verifier::external_body]
+    pub fn range(&self, store: &dyn Storage, min: Option<core::ops::Bound<&'a Addr>>, max: Option<core::ops::Bound<&'a Addr>>, order: Order) -> (r: EntryIter<V>)
+        requires min is None, max is None
+        ensures exists|recs: Seq<RecV>| entries_of::<V>(window(store.view(), lp(self.ns())), recs, r.rem(), order)
+    { unimplemented!() }
+}
+// Iterator::collect::<StdResult<Vec<_>>>() (rule D9): all items in order if every one is Ok, otherwise the first error
+#[verifier::external_body]
+pub fn entries_collect<V>(it: EntryIter<V>) -> (r: StdResult<Vec<(Addr, V)>>)
+    ensures match r {
+        Ok(v) => v@.len() == it.rem().len() && forall|i: int| 0 <= i < v@.len() ==> it.rem()[i] == Ok::<(Addr, V), StdError>(#[trigger] v@[i]),
+        Err(_) => exists|i: int| 0 <= i < it.rem().len() && it.rem()[i] is Err,
+    }
+{ unimplemented!() }
